@@ -1,5 +1,5 @@
 #!/usr/bin/env python3
-"""tools/benign_table.py <dir with B*/try_<i>.log>: collects the results of the benign-change study (DESIGN §9.1bis/ter) into
+"""tools/benign_table.py <dir with B*/try_<i>.log and try2_<i>.log>: collects the results of the benign-change study (DESIGN §9.1bis/ter) into
 /verif/benign/results.json and prints the markdown table."""
 import glob, json, os, re, sys
 src = sys.argv[1]
